@@ -10,7 +10,8 @@ Inductive-step form (no call histories are explored):
   dual_rrt_connect (extend/connect/get_until_root replaced by their contracts): a raised stop flag at an iteration head returns Err before any sampling;
              on success the path is reverse(ancestors in the start tree) ++ ancestors in the goal tree (whichever tree was extended), so it begins with start,
              ends with goal, consists of tree nodes, and consecutive nodes are <= 3 steps apart (the two junction nodes are omitted).
-  plan_path / convert_result / plan_rrt wiring: is_free = !kinematics.collides, samples = constraints().random_angles(), order/length preserved.
+  plan_path / convert_result / plan_rrt wiring (a node is accepted only if collision free AND within the limits, samples = constraints().random_angles(), order/length preserved)
+             is decided in checks/c12.py (check_rrt_wiring), where the planner that relies on it is composed; here it is exercised by the native battery only.
 Outside the claim: termination / probabilistic completeness; kd-tree internals; a flag raised inside an iteration acts at the next head.
 """
 import itertools
